@@ -22,6 +22,66 @@ pub mod column_buffer {
     include!("column_buffer.rs");
 }
 
+// ---- native witness search (not a proof, never used to claim that a property holds): the same real code driven over a
+// pool of small shapes; used only to turn a lost anchor / failed Verus obligation of U02 into a concrete failing input ----
+#[cfg(not(kani))]
+pub mod witness {
+    use super::bitvec::*;
+    use super::column_buffer::*;
+
+    fn null_at(cb: &ColumnBuffer, i: usize) -> bool {
+        match &cb.present {
+            None => matches!(cb.buffer, TypedBuffer::Empty),
+            Some(p) => matches!(cb.buffer, TypedBuffer::Empty) || !BitVec::is_set(p, i),
+        }
+    }
+    #[derive(Clone, Debug)]
+    pub enum Op { Nulls(usize), Ints(Vec<i64>, Option<Vec<u8>>) }
+
+    fn apply(cb: &mut ColumnBuffer, model: &mut Vec<Option<i64>>, op: &Op) {
+        match op {
+            Op::Nulls(n) => { cb.push_nulls(*n); for _ in 0..*n { model.push(None); } }
+            Op::Ints(v, m) => {
+                cb.push_ints(v.iter().copied(), m.as_deref());
+                for (k, x) in v.iter().enumerate() {
+                    let present = m.as_ref().map_or(true, |m| BitVec::is_set(&m[..], k));
+                    model.push(if present { Some(*x) } else { None });
+                }
+            }
+        }
+    }
+    fn check(cb: &ColumnBuffer, model: &[Option<i64>]) -> Option<&'static str> {
+        if cb.len() != model.len() { return Some("row-count"); }
+        for i in 0..model.len() {
+            if null_at(cb, i) != model[i].is_none() { return Some("null-exactly-where-missing"); }
+            if let (TypedBuffer::Int(b), Some(v)) = (&cb.buffer, model[i]) { if b.data[i] != v { return Some("value-kept"); } }
+        }
+        if let Some(p) = &cb.present { for j in model.len()..model.len() + 24 { if BitVec::is_set(p, j) { return Some("no-stray-bits"); } } }
+        None
+    }
+    pub fn search(seed: u64) -> Option<String> {
+        let lens = [0usize, 1, 2, 3, 7, 8, 9, 15, 16, 17];
+        let maps: [Option<Vec<u8>>; 5] = [None, Some(vec![0, 0, 0]), Some(vec![0xff, 0xff, 0xff]), Some(vec![0b0101_0101, 0b1010_1010, 0x01]), Some(vec![(seed as u8) | 1, (seed >> 8) as u8, (seed >> 16) as u8])];
+        let mut ops: Vec<Op> = Vec::new();
+        for &n in &lens { ops.push(Op::Nulls(n)); }
+        for &n in &lens { for m in &maps { ops.push(Op::Ints((0..n as i64).map(|x| x * 3 - 5 + (seed % 7) as i64).collect(), m.clone())); } }
+        for &n0 in &lens {
+            for a in &ops { for b in &ops {
+                let std::result::Result::Ok(r) = std::panic::catch_unwind(|| {
+                    let mut cb = ColumnBuffer::null(n0);
+                    let mut model: Vec<Option<i64>> = vec![None; n0];
+                    apply(&mut cb, &mut model, a);
+                    if let Some(c) = check(&cb, &model) { return Some(c); }
+                    apply(&mut cb, &mut model, b);
+                    check(&cb, &model)
+                }) else { return Some(format!("panic: ColumnBuffer::null({}) then {:?} then {:?}", n0, a, b)); };
+                if let Some(c) = r { return Some(format!("{}: ColumnBuffer::null({}) then {:?} then {:?}", c, n0, a, b)); }
+            } }
+        }
+        None
+    }
+}
+
 #[cfg(kani)]
 mod proofs {
     use super::bitvec::*;
